@@ -123,6 +123,8 @@ def tok(name, value, kind='t'):
         'v1': v.startswith('1'),
         'vs1': vs.startswith('1'),
         'u8': u8,
+        'sz': len(raw_n) + len(raw_v) + 32,                 # RFC 7541 4.1 size of the field as given
+        'nsz': len(nl.encode('utf-8')) + len(vs.encode('utf-8')) + 32,   # ... after lower+strip
     }
 
 
@@ -373,6 +375,9 @@ class Adversary:
         if mode == 'bad':
             return b'\xff\xff\xff\xff\xff\xff\xff\xff\xff\xff\xff'      # integer overflow in an index: undecodable
         hs = [untok(t) for t in toks]
+        if mode == 'big':                  # decodes to a header list far beyond any advertised MAX_HEADER_LIST_SIZE
+            hs = hs + [(b'x-big', b'a' * 70000)]
+            return self.enc.encode(hs, huffman=False)
         return self.enc.encode(hs)
 
     def frame(self, f):
@@ -386,7 +391,9 @@ class Adversary:
             pad = f.get('pad', -1)
             pad = None if pad < 0 else pad
             parts = [blk]
-            if nfr > 1:
+            if nfr <= 1 and len(blk) > 16000:          # keep every frame within the default MAX_FRAME_SIZE
+                parts = [blk[i:i + 16000] for i in range(0, len(blk), 16000)]
+            elif nfr > 1:
                 k = max(1, len(blk) // nfr)
                 parts = [blk[i * k:(i + 1) * k] for i in range(nfr - 1)] + [blk[(nfr - 1) * k:]]
             if t == 'HEADERS':
